@@ -494,6 +494,7 @@ class GraphEdges(BoundedCheck):
     bound_quick = 'catalogue + 200 random programs; every (variable, offset) pair perturbed on random data'
     bound_thorough = '3000 random programs'
     required_covers = ('edge', 'no-edge', 'self-edge')
+    concretises = ('fsic.tools.symbols_to_graph',)
 
     def cases(self, tier, seed):
         rnd = random.Random(17 + seed)
